@@ -41,6 +41,7 @@ RULES = {
     "P3b": rules_state.rule_P3b,
     "N4": rules_extra.rule_N4,
     "N5": rules_arith.rule_N5,
+    "N6": rules_arith.rule_N6,
 }
 
 SELFTESTS = {"T1": rules_types.selftest_T1}
@@ -130,7 +131,7 @@ PROPS = {
     "C08": {
         "id": "C08",
         "title": "Multirate converters equal the zero-stuff/filter/decimate definition",
-        "rules": ["R1", "H1", "S2", "R2", "N4", "N5"],
+        "rules": ["R1", "H1", "S2", "R2", "N4", "N5", "N6"],
         "clause": "the documented rejections and the identity case: FIRDecimator and FIRRateConverter reject (by a live throwing check "
                   "on every path to a normal return) frames whose length is not a multiple of the decimation factor; resample returns "
                   "its input unchanged when the reduced ratio is 1; a rejected frame leaves the converter untouched (no member is written on "
@@ -188,7 +189,7 @@ PROPS = {
     "C12": {
         "id": "C12",
         "title": "Adaptive filters report a-priori errors, honour the lock, and converge",
-        "rules": ["L1", "G2", "S2", "R2", "N5"],
+        "rules": ["L1", "G2", "S2", "R2", "N5", "N6"],
         "clause": "with the lock set no path of LmsFilter/RlsFilter::process writes the coefficient vector (or the RLS inverse "
                   "correlation); the flag is written only by set_lock_coeffs; y[k] is computed from the pre-update coefficients and "
                   "e[k] is formed from d and that y before the update; the x/d length guard dominates all indexing",
@@ -200,7 +201,7 @@ PROPS = {
     "C14": {
         "id": "C14",
         "title": "Analytic-signal and frequency-translation tools follow their definitions",
-        "rules": ["N1", "N3", "V1", "S2", "R2", "N5"],
+        "rules": ["N1", "N3", "V1", "S2", "R2", "N5", "N6"],
         "clause": "the tuner's admissible-frequency test (and every other division of the anchored files) is carried out in real "
                   "arithmetic: every f with |f| <= fs/2 is accepted, also for odd sample rates",
         "not_decided": "hilbert/HilbertFilter numerics and the phase accumulator arithmetic",
@@ -220,7 +221,7 @@ PROPS = {
     "C20": {
         "id": "C20",
         "title": "Dynamics processors never amplify, follow their static curves, and settle",
-        "rules": ["N1", "L2", "H1", "S2", "R2", "N5"],
+        "rules": ["N1", "L2", "H1", "S2", "R2", "N5", "N6"],
         "clause": "the static gain computers and their range checks contain no integer-truncated division (slope 1/ratio is real); "
                   "the AGC's max_gain clamp lies on every path between a gain update and its use; the smoothing state of "
                   "compressor, limiter and noise gate is carried into the output and no data-dependent shortcut bypasses its update",
@@ -231,7 +232,7 @@ PROPS = {
     "C16": {
         "id": "C16",
         "title": "Sorting, order statistics and rank correlation match their definitions",
-        "rules": ["D1", "N3", "R2", "N5"],
+        "rules": ["D1", "N3", "R2", "N5", "N6"],
         "clause": "each correlation kernel's result (Pearson, Spearman, Kendall, per return statement of corr) may-depends on the "
                   "contents of both samples - necessary for symmetry and for being the named coefficient at all",
         "not_decided": "correctness of sort/median/medfilt, the numerical value of the coefficients, ties",
@@ -241,7 +242,7 @@ PROPS = {
     "C19": {
         "id": "C19",
         "title": "Noise injection and SNR/THD measurement are calibrated; random streams reproduce",
-        "rules": ["P2b", "N5"],
+        "rules": ["P2b", "N5", "N6"],
         "clause": "one thread_local engine is the only entropy source of every generator and of awgn (reproducibility after rng(seed), per-thread independence)",
         "not_decided": "noise power calibration, SNR/THD/SINAD accuracy, randi bounds",
         "explanation": "P2b enumerates every static engine object, every local engine, every distribution draw site and every call "
